@@ -128,9 +128,10 @@ PROPS["C01"] = dict(
     level_text="Proof: the Go write loop (in-batch map, read snapshot, skip rule, latest pointers, change log, counters) refines the version-history "
                "specification for every batch (refinement, by induction over the batch with an invariant on the pending transaction); an element is dropped iff "
                "identical to the version it would replace (no_silent_drop, last_is_written); the stored latest is the last accepted version (stored_is_last); "
-               "the listing contains exactly the last version of every stored id, each once (listing_eq_latest, listing_once). The model is run against the real "
+               "the listing contains exactly the last version of every stored id, each once (listing_eq_latest, listing_once), in strictly increasing key order, and reading it with any list of page "
+               "sizes by following the continuation tokens returns exactly that listing, nothing twice and nothing missing (listing_incr, listing_paged). The model is run against the real "
                "store on generated histories (listing paging, scoped/unscoped/as-of lookups) and its key layouts / skip rule are regenerated facts.",
-    level_note="Trusted: Lean kernel, factgen, badger, encoding/json. Paging of the listing and the merge of partials are covered by the correspondence, not by a theorem.",
+    level_note="Trusted: Lean kernel, factgen, badger, encoding/json. The merge of partials for unscoped lookups is covered by the correspondence, not by a theorem.",
 )
 
 PROPS["C02"] = dict(
